@@ -24,6 +24,16 @@ GM_LOOP = ("        for cert in valid_certs:\n" + GM_EXPIRES + GM_PC +
            "                    # not-expired\n                    return True\n        return False\n")
 GM_NOKEYS = "    if not keys:\n        return lambda: True\n"
 
+# _parse_announcement: the seed branches
+SEED_ANN = ("    if \"permutation-seed-base32\" in ann:\n        seed = ann[\"permutation-seed-base32\"]\n"
+            "        if isinstance(seed, str):\n            seed = seed.encode(\"utf-8\")\n        ps = base32.a2b(seed)\n")
+SEED_KEY = ("    elif re.search(br'^v0-[0-9a-zA-Z]{52}$', server_id):\n        ps = base32.a2b(server_id[3:])\n")
+SEED_ELSE_HEAD = "    else:\n        log.msg(\"unable to parse serverid '%(server_id)s as pubkey, \"\n"
+SEED_HASH = "        ps = hashlib.sha256(server_id).digest()\n"
+FROM_ANN = ("        (nickname, permutation_seed, tubid, short_description, long_description) = "
+            "_parse_announcement(server_id, furl.encode(\"utf-8\"), ann)\n")
+HTTP_UNPACK = "            self._nickname,\n            self._permutation_seed,\n            self._tubid,\n"
+
 MUTANTS = [
     # ---- C32.1 ordering key
     M("preferred-sorted-last", SC,
@@ -166,7 +176,61 @@ MUTANTS = [
               "        def _create_server_tracker(server, renew, cancel):\n")]),
     M("benign-uploader-positional", UP,
       "storage_broker.get_servers_for_psi(storage_index, for_upload=True)", "storage_broker.get_servers_for_psi(storage_index, True)", None),
+    # ---- C32.8 the announced seed has precedence
+    M("seed-key-branch-before-announced", SC, SEED_ANN + SEED_KEY,
+      "    if re.search(br'^v0-[0-9a-zA-Z]{52}$', server_id):\n        ps = base32.a2b(server_id[3:])\n"
+      "    elif \"permutation-seed-base32\" in ann:\n        seed = ann[\"permutation-seed-base32\"]\n"
+      "        if isinstance(seed, str):\n            seed = seed.encode(\"utf-8\")\n        ps = base32.a2b(seed)\n", "C32.8",
+      note="seeded C32-E"),
+    M("seed-overridden-by-key-afterwards", SC, "    permutation_seed = ps\n",
+      "    if server_id.startswith(b\"v0-\") and len(server_id) == 55:\n        ps = base32.a2b(server_id[3:])\n    permutation_seed = ps\n",
+      "C32.8"),
+    M("seed-announced-only-for-non-key-ids", SC, "    if \"permutation-seed-base32\" in ann:\n        seed = ann[",
+      "    if \"permutation-seed-base32\" in ann and not server_id.startswith(b\"v0-\"):\n        seed = ann[", "C32.8"),
+    M("seed-tests-the-wrong-announcement-key", SC, "    if \"permutation-seed-base32\" in ann:\n        seed = ann[",
+      "    if \"permutation-seed\" in ann:\n        seed = ann[", "C32.8"),
+    M("seed-announced-truncated", SC, "        ps = base32.a2b(seed)\n", "        ps = base32.a2b(seed)[:20]\n", "C32.8"),
+    M("seed-returned-is-the-tubid", SC, "    permutation_seed = ps\n", "    permutation_seed = tubid\n", "C32.8"),
+    M("benign-seed-looked-up-with-get", SC, SEED_ANN + SEED_KEY,
+      "    seed = ann.get(\"permutation-seed-base32\")\n    if seed is not None:\n"
+      "        if isinstance(seed, str):\n            seed = seed.encode(\"utf-8\")\n        ps = base32.a2b(seed)\n" + SEED_KEY, None),
+    M("benign-seed-key-branch-first-when-absent", SC, SEED_ANN + SEED_KEY,
+      "    if \"permutation-seed-base32\" not in ann and re.search(br'^v0-[0-9a-zA-Z]{52}$', server_id):\n"
+      "        ps = base32.a2b(server_id[3:])\n"
+      "    elif \"permutation-seed-base32\" in ann:\n        seed = ann[\"permutation-seed-base32\"]\n"
+      "        if isinstance(seed, str):\n            seed = seed.encode(\"utf-8\")\n        ps = base32.a2b(seed)\n", None,
+      note="the same reordering as C32-E, with the precedence kept"),
+    M("benign-seed-keyerror-form", SC, SEED_ANN + SEED_KEY + SEED_ELSE_HEAD,
+      "    try:\n        seed = ann[\"permutation-seed-base32\"]\n    except KeyError:\n        seed = None\n"
+      "    if seed is not None:\n        if isinstance(seed, str):\n            seed = seed.encode(\"utf-8\")\n"
+      "        announced = base32.a2b(seed)\n        ps = announced\n" + SEED_KEY + SEED_ELSE_HEAD, None),
+    # ---- C32.9 the seed element reaches get_permutation_seed()
+    M("http-server-unpacks-tubid-as-seed", SC, HTTP_UNPACK,
+      "            self._nickname,\n            self._tubid,\n            self._permutation_seed,\n", "C32.9"),
+    M("foolscap-description-gets-tubid-as-seed", SC, "            permutation_seed=permutation_seed,\n",
+      "            permutation_seed=tubid,\n", "C32.9"),
+    M("native-server-answers-tubid-as-seed", SC,
+      "    def get_permutation_seed(self):\n        return self._storage.permutation_seed\n",
+      "    def get_permutation_seed(self):\n        return self._storage.tubid\n", "C32.9"),
+    M("http-server-seed-rebound-from-id", SC,
+      "        self._nurls = [\n            DecodedURL.from_text(u)\n",
+      "        if server_id.startswith(b\"v0-\"):\n            self._permutation_seed = base32.a2b(server_id[3:])\n"
+      "        self._nurls = [\n            DecodedURL.from_text(u)\n", "C32.9"),
+    M("benign-foolscap-description-indexes-the-result", SC, FROM_ANN,
+      "        parsed = _parse_announcement(server_id, furl.encode(\"utf-8\"), ann)\n"
+      "        nickname, tubid, short_description, long_description = parsed[0], parsed[2], parsed[3], parsed[4]\n"
+      "        permutation_seed = parsed[1]\n", None),
+    # ---- C32.10 the fallback seeds are the frozen ones
+    M("seed-key-tail-off-by-one", SC, "        ps = base32.a2b(server_id[3:])\n", "        ps = base32.a2b(server_id[2:])\n", "C32.10"),
+    M("seed-key-branch-on-prefix-only", SC, "    elif re.search(br'^v0-[0-9a-zA-Z]{52}$', server_id):\n",
+      "    elif server_id.startswith(b\"v0-\"):\n", "C32.10"),
+    M("seed-hash-is-sha1", SC, SEED_HASH, "        ps = hashlib.sha1(server_id).digest()\n", "C32.10"),
+    M("seed-hash-of-the-tubid", SC, SEED_HASH, "        ps = hashlib.sha256(tubid).digest()\n", "C32.10"),
+    M("benign-seed-key-tail-hoisted", SC, SEED_KEY,
+      "    elif V0_SERVER_ID.search(server_id) is not None:\n        pubkey_b32 = server_id[3:]\n        ps = base32.a2b(pubkey_b32)\n", None,
+      edits=[(SC, "def _parse_announcement(server_id: bytes,", "V0_SERVER_ID = re.compile(br'^v0-[0-9a-zA-Z]{52}$')\n\n\ndef _parse_announcement(server_id: bytes,")]),
     # ---- vanished anchors
+    M("vanish-parse-announcement", SC, "def _parse_announcement(server_id: bytes,", "def _parse_announcement2(server_id: bytes,", "ANALYSIS-ERROR"),
     M("vanish-psi", SC, "    def get_servers_for_psi(self, peer_selection_index, for_upload=False):",
       "    def get_servers_for_psi2(self, peer_selection_index, for_upload=False):", "ANALYSIS-ERROR"),
     M("vanish-gm-predicate-loop", GM, "        for cert in valid_certs:\n" + GM_EXPIRES,
